@@ -131,13 +131,13 @@ def shrink(case, still_fails, max_rounds=40):
 def machine_corpus(rep, m, classes, per_type, maxlen, seed):
     """histories on the specification machines' own operation sets, for the types of their classes"""
     rng = random.Random(seed * 7919 + 13)
-    seq_cases, bag_cases = [], []
+    seq_cases, bag_cases, cho_cases = [], [], []
     for k, cl in classes.items():
         tree = m.g['templates'][k]
         alpha = rx.alphabet(tree)
         r = rx.of_tree(tree)
-        if cl in ('seq', 'noopt'):
-            for _ in range(per_type):
+        if cl in ('seq', 'noopt', 'choice'):
+            for _ in range(per_type * (3 if cl == 'choice' else 1)):
                 ops = hist.gen_guided(rng, r, alpha, maxlen, 1) if rng.random() < 0.6 else hist.gen_uniform(rng, alpha, maxlen, 1)
                 ops = [[o[0], o[1]] if o[0] != 'f' else ['f', 0] for o in ops]
                 # same-name replaces
@@ -150,7 +150,7 @@ def machine_corpus(rep, m, classes, per_type, maxlen, seed):
                     if added and rng.random() < 0.08:
                         k2 = rng.randrange(len(added))
                         out.append(['q', k2])
-                seq_cases.append({'type': k, 'ops': out})
+                (cho_cases if cl == 'choice' else seq_cases).append({'type': k, 'ops': out})
         elif cl == 'bag':
             others = [x for x in sorted(m.g['sym']) if x not in alpha][:3]
             for _ in range(per_type):
@@ -159,7 +159,7 @@ def machine_corpus(rep, m, classes, per_type, maxlen, seed):
                     x = rng.random()
                     ops.append(['f', 0] if x < 0.25 else ['a', rng.choice(alpha if x < 0.92 else others)])
                 bag_cases.append({'type': k, 'ops': ops})
-    return seq_cases, bag_cases
+    return seq_cases, bag_cases, cho_cases
 
 
 
@@ -218,21 +218,23 @@ def exhaustive_machine_corpus(m, classes, length, seed, n_sym=3):
     """ALL histories up to `length` over add(3 symbols) / remove #0,#1 / same-name replace #0 / final, for every type of the machine classes"""
     import itertools
     rng = random.Random(seed * 31 + 1)
-    seq_cases, bag_cases = [], []
+    seq_cases, bag_cases, cho_cases = [], [], []
     for k, cl in sorted(classes.items()):
         alpha = rx.alphabet(m.g['templates'][k])
         sub = rng.sample(alpha, min(n_sym, len(alpha)))
-        if cl in ('seq', 'noopt'):
+        if cl in ('seq', 'noopt', 'choice'):
+            if cl == 'choice':
+                sub = alpha[:5]
             ops = [['a', s] for s in sub] + [['r', 0], ['r', 1], ['q', 0], ['f', 0]]
             for ln in range(1, length + 1):
                 for h in itertools.product(ops, repeat=ln):
-                    seq_cases.append({'type': k, 'ops': [list(o) for o in h]})
+                    (cho_cases if cl == 'choice' else seq_cases).append({'type': k, 'ops': [list(o) for o in h]})
         elif cl == 'bag':
             ops = [['a', s] for s in sub] + [['f', 0]]
             for ln in range(1, length + 2):
                 for h in itertools.product(ops, repeat=ln):
                     bag_cases.append({'type': k, 'ops': [list(o) for o in h]})
-    return seq_cases, bag_cases
+    return seq_cases, bag_cases, cho_cases
 
 
 def search_near(m, seeds, sweep, seed, per_seed=400):
